@@ -68,6 +68,21 @@ def parse_all(data: bytes) -> dict:
     return res
 
 
+def raw_flat(api: str, data: bytes):
+    """Flat parse without the xsd:string == plain normalisation: the two integrations must
+    report the same datatype for the same bytes, whichever it is."""
+    if api == "generic":
+        from pyjelly.integrations.generic import parse as gp  # noqa: PLC0415
+        from pyjelly.integrations.generic import generic_sink as gs  # noqa: PLC0415
+
+        return [T.st_from_generic(x) for x in gp.parse_jelly_flat(io.BytesIO(data))
+                if not isinstance(x, gs.Prefix)]
+    from pyjelly.integrations.rdflib import parse as rp  # noqa: PLC0415
+
+    return [T.st_from_rdflib(x) for x in rp.parse_jelly_flat(io.BytesIO(data))
+            if not isinstance(x, rp.Prefix)]
+
+
 def _fold(stmts):
     """rdflib containers are sets under rdflib's own term equality, which ignores the case of
     language tags: compare container contents modulo that."""
@@ -76,7 +91,7 @@ def _fold(stmts):
     return {tuple(f(t) for t in st) for st in stmts}
 
 
-def agree(res: dict) -> list[tuple[str, str]]:
+def agree(res: dict, data: bytes | None = None) -> list[tuple[str, str]]:
     fails = []
     gf = res[("generic", "flat")]
     rf = res[("rdflib", "flat")]
@@ -90,6 +105,20 @@ def agree(res: dict) -> list[tuple[str, str]]:
             fails.append((f"rdflib-{reader}", f"rdflib flat gives {rf} but rdflib {reader} gives {r}"))
     if (gf[0] == "ok") != (rf[0] == "ok") or (gf[0] == "ok" and gf[1] != rf[1]):
         fails.append(("cross-integration", f"generic flat gives {gf}, rdflib flat gives {rf}"))
+    elif gf[0] == "ok" and data is not None:
+        def lits(stmts):
+            # (lexical form, language, datatype as reported; rdflib reports no datatype string
+            #  for a language-tagged literal, the generic one reports None as well)
+            return [[t for t in st if t[0] == "L"] for st in stmts]
+        try:
+            gr, rr = lits(raw_flat("generic", data)), lits(raw_flat("rdflib", data))
+        except Exception:  # noqa: BLE001
+            return fails
+        if gr != rr:
+            bad = next(i for i, (a, b) in enumerate(zip(gr, rr)) if a != b)
+            fails.append(("cross-integration-datatype",
+                          f"statement {bad}: generic reports literals {gr[bad]}, rdflib reports "
+                          f"{rr[bad]} for the same bytes"))
     return fails
 
 
@@ -102,7 +131,7 @@ def run_case(case: dict) -> list[tuple[str, str]]:
         # bytes written by the generic serializer, parsed by both integrations
         data = DR.g_write(seq, cls, DR.make_options(cls, tuple(case["preset"]), case["frame_size"],
                                                     True, generalized=False, rdf_star=False))
-        return agree(parse_all(data))
+        return agree(parse_all(data), data)
     if case["kind"] == "pyjelly":
         preset = tuple(case["preset"])
         try:
@@ -128,7 +157,7 @@ def run_case(case: dict) -> list[tuple[str, str]]:
         return fails
     ch = choice.Chooser(case["choices"])
     data, delimited, _ = jrefenc.encode(ch, seq, PT[cls], tuple(case["preset"]))
-    return agree(parse_all(data))
+    return agree(parse_all(data), data)
 
 
 def run_nsgroup(case: dict) -> list[tuple[str, str]]:
@@ -186,7 +215,8 @@ def nsgroup_shard(job) -> dict:
     DR.ensure_rdflib_plugin()
     acc = pool.Acc()
     preset = RR.R_SCOPES["r_prefix"]["presets"][pi]
-    parts_list = [([0], [1]), ([0, 1], [2]), ([3], [3, 4]), ([0], [1], [2]), ([5], [], [0])]
+    parts_list = [([0], [1]), ([0, 1], [2]), ([3], [3, 4]), ([0], [1], [2]), ([5], [], [0]),
+                  ([], [0, 1]), ([], [], [2])]
     bind_lists = [(), (0,), (0, 3), (3, 0), (7,)]
     for parts in parts_list:
         for b1 in bind_lists:
@@ -289,7 +319,7 @@ def shard(job) -> dict:
                 acc.evals += 1
                 if ch.deviations():
                     acc.nontrivial += 1
-                for k, msg in agree(parse_all(res[0])):
+                for k, msg in agree(parse_all(res[0]), res[0]):
                     acc.violation({"kind": kind, "fail": k}, f"{msg[:600]} case={base}",
                                   {**base, "choices": ch.choices()})
 
